@@ -116,6 +116,13 @@ pub struct Cfg {
     /// server calls graceful_shutdown after accepting this many requests
     pub graceful_after: Option<usize>,
     pub initial_stream_id: Option<u32>,
+    /// client calls set_initial_window_size(n) right after the handshake (a second SETTINGS frame)
+    pub c_set_window: Option<u32>,
+    /// server calls set_initial_window_size(n) after accepting its first request
+    pub s_set_window: Option<u32>,
+    /// server calls set_target_window_size(n) after accepting its first request
+    pub s_target_window: Option<u32>,
+    pub c_enable_push: Option<bool>,
 }
 
 impl Default for Cfg {
@@ -139,6 +146,10 @@ impl Default for Cfg {
             ping: false,
             graceful_after: None,
             initial_stream_id: None,
+            c_set_window: None,
+            s_set_window: None,
+            s_target_window: None,
+            c_enable_push: None,
         }
     }
 }
@@ -205,14 +216,17 @@ pub struct LogRec {
     /// true: submitted by `side`; false: received by `side`
     pub submitted: bool,
     pub ev: Ev,
+    /// length of the transport I/O log when this record was made: orders API events against wire events
+    pub io_pos: usize,
 }
 
 #[derive(Clone, Default)]
-pub struct Log(pub Arc<Mutex<Vec<LogRec>>>);
+pub struct Log(pub Arc<Mutex<Vec<LogRec>>>, pub Option<Sh>);
 
 impl Log {
     pub fn push(&self, side: Side, k: usize, dir: Dir, submitted: bool, ev: Ev) {
-        self.0.lock().unwrap().push(LogRec { side, k, dir, submitted, ev });
+        let io_pos = self.1.as_ref().map(|s| s.lock().unwrap().iolog.len()).unwrap_or(0);
+        self.0.lock().unwrap().push(LogRec { side, k, dir, submitted, ev, io_pos });
     }
     pub fn conn(&self, side: Side, what: String) {
         self.push(side, usize::MAX, Dir::Req, false, Ev::Err(what));
@@ -634,6 +648,9 @@ pub fn client_builder(cfg: &Cfg) -> client::Builder {
     if let Some(n) = cfg.initial_stream_id {
         b.initial_stream_id(n);
     }
+    if let Some(e) = cfg.c_enable_push {
+        b.enable_push(e);
+    }
     b.reset_stream_duration(if cfg.reset_expire_now { Duration::from_secs(0) } else { Duration::from_secs(3600) });
     b
 }
@@ -672,7 +689,7 @@ impl T1 {
             s.policy[1].vectored = sc.cfg.vectored;
         }
         let exec = Exec::new(sh.clone());
-        let log = Log::default();
+        let log = Log(Default::default(), Some(sh.clone()));
         let spawner = exec.spawner.clone();
         // client connection task
         {
@@ -683,6 +700,7 @@ impl T1 {
             let streams = sc.streams.clone();
             let keep = sc.cfg.keep_send_request;
             let ping = sc.cfg.ping;
+            let c_set_window = sc.cfg.c_set_window;
             spawner.spawn("connC", async move {
                 let (sr, mut conn) = match b.handshake::<_, Bytes>(io).await {
                     Ok(x) => x,
@@ -691,6 +709,11 @@ impl T1 {
                         return;
                     }
                 };
+                if let Some(w) = c_set_window {
+                    if let Err(e) = conn.set_initial_window_size(w) {
+                        log.conn(Side::Client, format!("set_initial_window_size: {}", err_text(&e)));
+                    }
+                }
                 for (k, s) in streams.into_iter().enumerate() {
                     sp.spawn(&format!("c{}", k), client_stream(k, s, sr.clone(), log.clone(), sp.clone()));
                 }
@@ -725,6 +748,8 @@ impl T1 {
             let sp = spawner.clone();
             let streams = sc.streams.clone();
             let graceful_after = sc.cfg.graceful_after;
+            let s_set_window = sc.cfg.s_set_window;
+            let s_target_window = sc.cfg.s_target_window;
             spawner.spawn("connS", async move {
                 let mut conn = match b.handshake::<_, Bytes>(io).await {
                     Ok(c) => c,
@@ -738,6 +763,16 @@ impl T1 {
                     match poll_fn(|cx| conn.poll_accept(cx)).await {
                         Some(Ok((req, respond))) => {
                             accepted += 1;
+                            if accepted == 1 {
+                                if let Some(w) = s_set_window {
+                                    if let Err(e) = conn.set_initial_window_size(w) {
+                                        log.conn(Side::Server, format!("set_initial_window_size: {}", err_text(&e)));
+                                    }
+                                }
+                                if let Some(w) = s_target_window {
+                                    conn.set_target_window_size(w);
+                                }
+                            }
                             let path = req.uri().path().trim_start_matches('/').to_string();
                             let k: usize = path.parse().unwrap_or(usize::MAX);
                             if k < streams.len() {
